@@ -81,7 +81,9 @@ type gen struct {
 func (g *gen) thorough() bool { return g.tier == "thorough" }
 
 func (g *gen) concurrentStrategy() StratSpec {
-	switch g.k.Intn(6) {
+	switch g.k.Intn(7) {
+	case 6:
+		return StratSpec{Name: "pctw", D: 2 + g.k.Intn(2)}
 	case 0:
 		return StratSpec{Name: "rw", Den: 2}
 	case 1:
